@@ -130,8 +130,13 @@ def factories():
         Q, lam = orth("q", 2), vec("w", 2)
         A = _sym_from(Q, lam)
         register_eigh(A, lam, Q)
+        # only ONE half of the optional eigendecomposition supplied, in another column order than the one eigh returns (registered above): the class
+        # must end up with a consistent (eigvec, eigval) pair whichever property is requested first
+        Qp, lamp = Q[:, ::-1].copy(), lam[::-1].copy()
         return [("eig lazily computed", M.DenseSymmetricMatrix(A), A), ("eig supplied (arrays)", M.DenseSymmetricMatrix(A, eigvec=Q, eigval=lam), A),
-                ("eig supplied (OrthogonalMatrix)", M.DenseSymmetricMatrix(A, eigvec=M.OrthogonalMatrix(Q), eigval=lam), A)]
+                ("eig supplied (OrthogonalMatrix)", M.DenseSymmetricMatrix(A, eigvec=M.OrthogonalMatrix(Q), eigval=lam), A),
+                ("only eigvec supplied, other column order than eigh", M.DenseSymmetricMatrix(A, eigvec=Qp), A),
+                ("only eigval supplied, other order than eigh", M.DenseSymmetricMatrix(A, eigval=lamp), A)]
 
     @add("OrthogonalMatrix")
     def _(M):
